@@ -87,22 +87,29 @@ func (p *pool) Get(ctx context.Context) (backend.PooledConnect, error) {
 	p.led.add(Event{Op: "get", Class: p.class, Slice: p.slice, Conn: c.id})
 	return c, nil
 }
-func (p *pool) GetCheck(ctx context.Context) (backend.PooledConnect, error) { return p.Get(ctx) }
-func (p *pool) Put(pc backend.PooledConnect)                                {}
-func (p *pool) SetCapacity(capacity int) error                              { return nil }
-func (p *pool) SetIdleTimeout(d time.Duration)                              {}
-func (p *pool) StatsJSON() string                                           { return "{}" }
-func (p *pool) Capacity() int64                                             { return 8 }
-func (p *pool) Available() int64                                            { return 8 }
-func (p *pool) Active() int64                                               { return 0 }
-func (p *pool) InUse() int64                                                { return 0 }
-func (p *pool) MaxCap() int64                                               { return 8 }
-func (p *pool) WaitCount() int64                                            { return 0 }
-func (p *pool) WaitTime() time.Duration                                     { return 0 }
-func (p *pool) IdleTimeout() time.Duration                                  { return 0 }
-func (p *pool) IdleClosed() int64                                           { return 0 }
-func (p *pool) SetLastChecked()                                             {}
-func (p *pool) GetLastChecked() int64                                       { return 0 }
+
+// GetCheck is what the health-check loops use; the rig never lets them run (see Reload), a
+// call would be recorded under its own op so that it can never pass for a statement's Get.
+func (p *pool) GetCheck(ctx context.Context) (backend.PooledConnect, error) {
+	c := &conn{p: p, id: p.led.id()}
+	p.led.add(Event{Op: "getcheck", Class: p.class, Slice: p.slice, Conn: c.id})
+	return c, nil
+}
+func (p *pool) Put(pc backend.PooledConnect)   {}
+func (p *pool) SetCapacity(capacity int) error { return nil }
+func (p *pool) SetIdleTimeout(d time.Duration) {}
+func (p *pool) StatsJSON() string              { return "{}" }
+func (p *pool) Capacity() int64                { return 8 }
+func (p *pool) Available() int64               { return 8 }
+func (p *pool) Active() int64                  { return 0 }
+func (p *pool) InUse() int64                   { return 0 }
+func (p *pool) MaxCap() int64                  { return 8 }
+func (p *pool) WaitCount() int64               { return 0 }
+func (p *pool) WaitTime() time.Duration        { return 0 }
+func (p *pool) IdleTimeout() time.Duration     { return 0 }
+func (p *pool) IdleClosed() int64              { return 0 }
+func (p *pool) SetLastChecked()                {}
+func (p *pool) GetLastChecked() int64          { return 0 }
 
 type conn struct {
 	p      *pool
@@ -200,6 +207,10 @@ type World struct {
 
 	mu   sync.Mutex
 	srvs map[string]*srvUse // per namespace: the Server object sessions are attached to
+
+	specs    map[string]NSSpec
+	reloadMu sync.Mutex // the proxy's prepare/commit pair is one admin operation at a time
+	reloads  int64
 }
 
 // A Server (never-started one-bucket time wheel included) is shared by the sessions of one
@@ -290,41 +301,102 @@ func NewWorld(specs []NSSpec) (*World, error) {
 	if err != nil {
 		return nil, err
 	}
-	w := &World{Manager: m, cfg: cfg, ledgers: map[string]*Ledger{}}
+	w := &World{Manager: m, cfg: cfg, ledgers: map[string]*Ledger{}, specs: map[string]NSSpec{}}
 	for _, sp := range specs {
-		ns := server.VerifManagerNamespace(m, sp.Name)
-		if ns == nil {
-			return nil, fmt.Errorf("namespace %s missing", sp.Name)
-		}
-		led := &Ledger{}
-		w.ledgers[sp.Name] = led
-		for _, sn := range []string{"slice-0", "slice-1"} {
-			sl := ns.GetSlice(sn)
-			if sl == nil {
-				return nil, fmt.Errorf("slice %s missing", sn)
-			}
-			swap := func(info *backend.DBInfo, class string) {
-				if info == nil {
-					return
-				}
-				for _, nd := range info.Nodes {
-					if nd.ConnPool != nil {
-						nd.ConnPool.Close() // stops the real pool's timers; it never connected
-					}
-					nd.ConnPool = &pool{led: led, class: class, slice: sn, addr: nd.Address}
-				}
-			}
-			if len(sl.Master.Nodes) != 1 || len(sl.Slave.Nodes) != 1 {
-				return nil, fmt.Errorf("slice %s: unexpected node layout", sn)
-			}
-			swap(sl.Master, "master")
-			swap(sl.Slave, "replica")
-			swap(sl.StatisticSlave, "statistic-replica")
-			swap(sl.MonitorMaster, "monitor-master")
-			swap(sl.MonitorSlave, "monitor-replica")
+		w.specs[sp.Name] = sp
+		w.ledgers[sp.Name] = &Ledger{}
+		if err := w.plugFakes(sp.Name); err != nil {
+			return nil, err
 		}
 	}
 	return w, nil
+}
+
+// plugFakes replaces the pools of the manager's CURRENT namespace object called name by
+// recording fakes writing to the namespace's ledger.
+func (w *World) plugFakes(name string) error {
+	ns := server.VerifManagerNamespace(w.Manager, name)
+	if ns == nil {
+		return fmt.Errorf("namespace %s missing", name)
+	}
+	led := w.ledgers[name]
+	for _, sn := range []string{"slice-0", "slice-1"} {
+		sl := ns.GetSlice(sn)
+		if sl == nil {
+			return fmt.Errorf("slice %s missing", sn)
+		}
+		swap := func(info *backend.DBInfo, class string) {
+			if info == nil {
+				return
+			}
+			for _, nd := range info.Nodes {
+				if nd.ConnPool != nil {
+					nd.ConnPool.Close() // stops the real pool's timers; it never connected
+				}
+				nd.ConnPool = &pool{led: led, class: class, slice: sn, addr: nd.Address}
+			}
+		}
+		if len(sl.Master.Nodes) != 1 || len(sl.Slave.Nodes) != 1 {
+			return fmt.Errorf("slice %s: unexpected node layout", sn)
+		}
+		swap(sl.Master, "master")
+		swap(sl.Slave, "replica")
+		swap(sl.StatisticSlave, "statistic-replica")
+		swap(sl.MonitorMaster, "monitor-master")
+		swap(sl.MonitorSlave, "monitor-replica")
+	}
+	return nil
+}
+
+// Reload replaces the configuration of namespace name through the proxy's own reload path —
+// Manager.ReloadNamespacePrepare + ReloadNamespaceCommit, what the admin API calls when an
+// operator edits a namespace — with the rig's configuration changed by mutate (e.g. a user's
+// rw_flag). Open sessions stay open and pick the new namespace up with their next command,
+// exactly as in the proxy. The commit starts the health-check loops of the new namespace
+// (first tick after 4 s); they are cancelled at once through the exported Namespace.CloseCancel
+// and the new namespace's pools are replaced by fakes on the same ledger.
+func (w *World) Reload(name string, mutate func(*models.Namespace)) error {
+	sp, ok := w.specs[name]
+	if !ok {
+		return fmt.Errorf("namespace %s unknown", name)
+	}
+	cfg := nsConfig(sp)
+	if mutate != nil {
+		mutate(cfg)
+	}
+	w.reloadMu.Lock()
+	defer w.reloadMu.Unlock()
+	if err := w.Manager.ReloadNamespacePrepare(cfg); err != nil {
+		return fmt.Errorf("reload prepare: %v", err)
+	}
+	if err := w.Manager.ReloadNamespaceCommit(name); err != nil {
+		return fmt.Errorf("reload commit: %v", err)
+	}
+	ns := server.VerifManagerNamespace(w.Manager, name)
+	if ns == nil {
+		return fmt.Errorf("namespace %s missing after reload", name)
+	}
+	if ns.CloseCancel != nil {
+		ns.CloseCancel()
+	}
+	w.reloads++
+	return w.plugFakes(name)
+}
+
+// Reloads returns the number of namespace reloads performed.
+func (w *World) Reloads() int64 {
+	w.reloadMu.Lock()
+	defer w.reloadMu.Unlock()
+	return w.reloads
+}
+
+// SetUserFlags is a mutate helper for Reload: it sets rw_flag / rw_split of a user kind.
+func SetUserFlags(cfg *models.Namespace, userKind string, rwFlag, rwSplit int) {
+	for _, u := range cfg.Users {
+		if u.UserName == userKind+"__"+cfg.Name {
+			u.RWFlag, u.RWSplit = rwFlag, rwSplit
+		}
+	}
 }
 
 func (w *World) Ledger(ns string) *Ledger { return w.ledgers[ns] }
